@@ -22,7 +22,12 @@ def script(sc):
     sc.commit_all("hist")
     for k in range(rng.choice([1, 2, 2, 3])):
         import os
-        op = rng.choice(os.environ["VERIF_C13_OPS"].split(",") if os.environ.get("VERIF_C13_OPS") else OPS)
+        pool = os.environ["VERIF_C13_OPS"].split(",") if os.environ.get("VERIF_C13_OPS") else OPS
+        op = rng.choice(pool)
+        if k == 0:
+            # stratified: the first operation of case i is the i-th kind (every window of len(OPS) cases covers every kind), the rest is random
+            uniq = sorted(set(pool))
+            op = uniq[sc.index % len(uniq)]
         if op == "commit":
             sc.do_edit(); sc.do_edit(); sc.commit_all("c")
         elif op == "partial":
